@@ -124,6 +124,38 @@ def h_separable(env, slmode, version, layout):
     env.equal("E[a,b]=(E[2a]+E[2b])/2", tot, acc)
 
 
+def h_swap_plan(env, version):
+    """spin-label exchange at the NLDF plan level in the call order the drivers use (both forward passes, then both potential passes,
+    on ONE plan object): exchanging which channel carries which density exchanges features and potentials"""
+    from . import c01_l2
+    s = None
+    f, rho, f2, rho2 = None, None, None, None
+    res = []
+    for run in range(2):
+        plan, s = c01_l2.make_plan(env, version, "MGGA", "one", 2, "gq")
+        if f is None:
+            f, rho = c01_l2.plan_inputs(env, plan, s)
+            f2, rho2 = c01_l2.plan_inputs(env, plan, s, tag="b_")
+            env.eps_zero()
+            v = env.arr("v", (s.nfeat, 1), lo="-8", hi="8")
+            w = env.arr("w", (s.nfeat, 1), lo="-8", hi="8")
+        chan = [(f, rho, v), (f2, rho2, w)] if run == 0 else [(f2, rho2, w), (f, rho, v)]
+        fwd = [c01_l2.run_fwd(plan, chan[sp][0], chan[sp][1], spin=sp) for sp in range(2)]
+        out = []
+        for sp in range(2):
+            r = chan[sp][1]
+            vr = env.zeros(r.shape)
+            vf = plan.eval_vxc_full(chan[sp][2].copy(), vr, fwd[sp][1], r.copy(), spin=sp)
+            out.append((list(np.asarray(fwd[sp][0], dtype=object if env.sym else float).ravel()),
+                        list(np.asarray(vf, dtype=object if env.sym else float).ravel()) + list(np.asarray(vr, dtype=object if env.sym else float).ravel())))
+        res.append(out)
+    for sp in range(2):
+        for k, (a, b) in enumerate(zip(res[1][sp][0], res[0][1 - sp][0])):
+            env.equal("features_follow_the_density_spin%d_%d" % (sp, k), a, b)
+        for k, (a, b) in enumerate(zip(res[1][sp][1], res[0][1 - sp][1])):
+            env.equal("potentials_follow_the_density_spin%d_%d" % (sp, k), a, b)
+
+
 def tasks(tier):
     out = [Task("exponent/%s" % lv, h_exponent, dict(level=lv)) for lv in ("MGGA", "GGA")]
     for mode in ("npa", "nst", "np", "ns"):
@@ -139,7 +171,11 @@ def tasks(tier):
             out.append(Task("separable/%s/v%d/%s" % (sm, v, lay), h_separable, dict(slmode=sm, version=v, layout=lay), mods="numint", max_paths=256))
     from . import c01_l2
     out += c01_l2.spin_tasks(tier)
-    return out
+    return out + _plan_tasks(tier)
+
+
+def _plan_tasks(tier):
+    return [Task("swap/plan/%s" % v, h_swap_plan, dict(version=v), mods="numint", max_paths=256) for v in (("j", "i", "ij", "k") if tier == "thorough" else ("j", "ij"))]
 
 
 def prepare(tier):
@@ -150,7 +186,7 @@ def prepare(tier):
 META = dict(
     explanation="the real exponent / plan / eval_xc_cider code is executed symbolically for the polarised and the unpolarised "
                 "call and z3 decides term-by-term equality (closed shell, spin swap, separable identity)",
-    functions=["ciderpress/dft/settings.py: get_cider_exponent(_gga), get_s2, ds2, get_alpha, dalpha", "ciderpress/dft/plans.py: SemilocalPlan.get_feat/get_vxc",
+    functions=['ciderpress/dft/plans.py: NLDFAuxiliaryPlan.eval_rho_full / eval_vxc_full on one plan object in the order F0 F1 P0 P1 with the channels exchanged (swap/plan/*)', "ciderpress/dft/settings.py: get_cider_exponent(_gga), get_s2, ds2, get_alpha, dalpha", "ciderpress/dft/plans.py: SemilocalPlan.get_feat/get_vxc",
                "ciderpress/pyscf/numint.py: CiderNumIntMixin.eval_xc_cider", "ciderpress/dft/xc_evaluator(2).py: MappedXC(2), MappedDFTKernel(2), KernelEvalBase(2)"],
     bounds=dict(grid_points=1, region="rho > 1e-6 per channel, tau > tau_W (composites); whole non-negative domain incl. both sides of rhocut (exponent leaf)",
                 nonlocal_inputs="per-channel raw non-local features of a closed shell equal the unpolarised ones (generator nspin factors: C01-L2/L3)"),
